@@ -14,7 +14,47 @@ PID = "C07"
 
 
 # ----------------------------------------------------------------------------- real code
-def impl_decision(policy, R, V, seed=None, prior=None):
+_ENGINE_DB = []
+
+
+def engine_decision(policy, R, V, seed, prior):
+    """the decision as a scenario gets it: one long-lived `CentralizedTaskingEngine` whose reward and visibility matrices are filled step
+    after step, `generateTasking()`, then the engine's decision matrix and the task rows it would store"""
+    from resonaate.data import setDBPath
+    from resonaate.physics.time.stardate import JulianDate
+    from resonaate.scenario.config import decision_config as dc
+    from resonaate.scenario.config.reward_config import SimpleSummationRewardConfig
+    from resonaate.tasking.decisions import decisionFactory
+    from resonaate.tasking.engine.centralized_engine import CentralizedTaskingEngine
+    from resonaate.tasking.rewards import rewardsFactory
+
+    if not _ENGINE_DB:
+        setDBPath("sqlite://")
+        _ENGINE_DB.append(True)
+    cfg = {"greedy": dc.MyopicNaiveGreedyDecisionConfig, "munkres": dc.MunkresDecisionConfig, "allvis": dc.AllVisibleDecision}[policy]()
+    T, S = len(R), len(R[0])
+    sensors, targets = [10001 + k for k in range(S)], [20001 + k for k in range(T)]
+    eng = CentralizedTaskingEngine(engine_id=1, sensor_ids=sensors, target_ids=targets,
+                                   reward=rewardsFactory(SimpleSummationRewardConfig(metrics=[{"name": "TimeSinceObservation"}])),
+                                   decision=decisionFactory(cfg), importer_db_path=None, realtime_obs=True)
+    for R0, V0 in list(prior or []) + [(R, V)]:
+        eng.reward_matrix = np.array(R0, dtype=float)
+        eng.visibility_matrix = np.array(V0, dtype=bool)
+        eng.generateTasking()
+    D = np.asarray(eng.decision_matrix)
+    if D.shape != (T, S):
+        raise ValueError(f"shape {D.shape}")
+    rows = list(eng.getCurrentTasking(JulianDate.getJulianDate(2021, 3, 30, 16, 0, 0.0)))
+    for t in rows:
+        ti, si = targets.index(t.target_id), sensors.index(t.sensor_id)
+        if bool(t.decision) != bool(D[ti][si]) or bool(t.visibility) != bool(V[ti][si]):
+            raise ValueError(f"task row ({t.sensor_id},{t.target_id}) decision={t.decision} visibility={t.visibility} differs from the matrices")
+    return [[bool(x) for x in row] for row in D]
+
+
+def impl_decision(policy, R, V, seed=None, prior=None, via=None):
+    if via == "engine":
+        return engine_decision(policy, R, V, seed, prior)
     from resonaate.tasking.decisions.decisions import (
         AllVisibleDecision,
         MunkresDecision,
@@ -147,8 +187,19 @@ def cases(run: Run):
             if rng.random() < 0.25:
                 T0, S0 = rng.randint(1, 4), rng.randint(1, 4)
                 prior.insert(0, list(gen_matrix(rng, T0, S0, "small")))
+        via = None
+        if rng.random() < 0.3:
+            # through a real tasking engine that lives for several steps; in half of these the step before had the very same rewards and another
+            # visibility (a target rising or setting while the metrics stand still)
+            via = "engine"
+            if prior is None or rng.random() < 0.5:
+                prior = [p for p in (prior or []) if len(p[0]) == T and len(p[0][0]) == S]
+                prior.append([R, [[rng.random() < 0.5 for _ in range(S)] for _ in range(T)]])
+            else:
+                prior = [p for p in prior if len(p[0]) == T and len(p[0][0]) == S] or None
         for pol in ("greedy", "munkres", "allvis"):
-            out.append({"op": pol, "R": R, "V": V, "src": "random-small" + ("-history" if prior else ""), **({"prior": prior} if prior else {})})
+            out.append({"op": pol, "R": R, "V": V, "src": "random-small" + ("-history" if prior else "") + ("-engine" if via else ""),
+                        **({"prior": prior} if prior else {}), **({"via": via} if via else {})})
         out.append({"op": "random", "R": R, "V": V, "seed": rng.randint(0, 2**31), "src": "random-small"})
     for _ in range(run.n(40, 400)):
         T, S = rng.randint(3, 40), rng.randint(3, 40)
@@ -269,7 +320,7 @@ def reward_objs():
 def impl_case(case):
     op = case["op"]
     if op in ("greedy", "munkres", "allvis", "random"):
-        return guarded(impl_decision, op, case["R"], case["V"], case.get("seed"), case.get("prior"))
+        return guarded(impl_decision, op, case["R"], case["V"], case.get("seed"), case.get("prior"), case.get("via"))
     if op == "norm":
         def f():
             ro = reward_objs()["sum"]()
